@@ -233,11 +233,14 @@ Conjuncts == {"A_CtorOnce", "A_DepsConstructedFirst", "A_PostInitOnce", "A_PostI
               "A_AbortsWithError", "A_NeverRunsPartial"}
 
 Holds(name, c, log, status) ==
-    CASE name = "A_CtorOnce"             -> Good(c) => A_CtorOnce(c, log)
+    \* "For every acyclic dependency graph ...": the at-most-once and destructor-order sentences are required of every
+    \* acyclic case, also one that is refused because a module cannot be loaded (whatever runs on the way out of a
+    \* refused start-up runs at most once and in dependency order); the others need the start-up to succeed
+    CASE name = "A_CtorOnce"             -> ~Cyclic(c) => A_CtorOnce(c, log)
       [] name = "A_DepsConstructedFirst" -> Good(c) => A_DepsConstructedFirst(c, log)
-      [] name = "A_PostInitOnce"         -> Good(c) => A_PostInitOnce(c, log)
+      [] name = "A_PostInitOnce"         -> ~Cyclic(c) => A_PostInitOnce(c, log)
       [] name = "A_PostInitAfterDeps"    -> Good(c) => A_PostInitAfterDeps(c, log)
-      [] name = "A_DtorBeforeDeps"       -> Good(c) => A_DtorBeforeDeps(c, log)
+      [] name = "A_DtorBeforeDeps"       -> ~Cyclic(c) => A_DtorBeforeDeps(c, log)
       [] name = "A_StartsComplete"       -> Good(c) => A_StartsComplete(c, log)
       [] name = "A_StopsClean"           -> Good(c) => A_StopsClean(c, log, status)
       [] name = "A_AbortsWithError"      -> ~Good(c) => A_AbortsWithError(c, log, status)
